@@ -93,7 +93,7 @@ Definition site_append_gap : site := 1913.            (* panic!("raft logs shoul
 Definition site_append_drain : site := 1914.          (* self.entries.drain(diff..), diff > len *)
 Definition site_entries_last_overflow : site := 1915. (* last_index() + 1 overflows in entries *)
 Definition site_entries_oob : site := 1916.           (* panic!("index out of bound (last: {}, high: {})") *)
-Definition site_entries_entries0 : site := 1917.      (* core.entries[0] in entries, entries empty *)
+Definition site_entries_entries0 : site := 1917.      (* RETIRED: core.entries[0] in entries on an empty vector; /repo 9c2e6d6 reads first_index() instead. Never produced by the model; the harness still maps the old message to it so a regression shows up *)
 Definition site_entries_hi_underflow : site := 1918.  (* high - offset underflows *)
 Definition site_entries_slice_order : site := 1919.   (* core.entries[lo..hi], lo > hi *)
 Definition site_entries_slice_end : site := 1920.     (* core.entries[lo..hi], hi > len *)
@@ -223,17 +223,14 @@ Definition storage_entries (m : mem) (low high : N) (max : option N) (ctx : gect
   if trig_log m && can_async ctx then
     Ok (set_ge_ctx m (Some ctx), SErr LogTemporarilyUnavailable)
   else
-  match entries m with
-  | [] => Panic site_entries_entries0
-  | e0 :: _ =>
-      let offset := e_index e0 in
-      if high <? offset then Panic site_entries_hi_underflow else
-      let lo := N.to_nat (low - offset) in
-      let hi := N.to_nat (high - offset) in
-      if (hi <? lo)%nat then Panic site_entries_slice_order else
-      if (length (entries m) <? hi)%nat then Panic site_entries_slice_end else
-      Ok (m, SOk (limit_size (firstn (hi - lo) (skipn lo (entries m))) max))
-  end.
+  (* let offset = core.first_index();  (evaluated again; same value as above) *)
+  offset <- first_index m ;;
+  if high <? offset then Panic site_entries_hi_underflow else
+  let lo := N.to_nat (low - offset) in
+  let hi := N.to_nat (high - offset) in
+  if (hi <? lo)%nat then Panic site_entries_slice_order else
+  if (length (entries m) <? hi)%nat then Panic site_entries_slice_end else
+  Ok (m, SOk (limit_size (firstn (hi - lo) (skipn lo (entries m))) max)).
 
 Definition storage_term (m : mem) (i : N) : Res (sres N) :=
   if i =? snap_index m then Ok (SOk (snap_term m)) else
